@@ -25,7 +25,9 @@ from .mir import strip_generics
 MAX_DEPTH = 4
 # pinned functions that are pure forwarders: always inlined, so that the rules are written once against the inlined
 # shape and keep working when a refactoring folds the forwarder into its caller
-ALWAYS_INLINE = ("anemo::network::connection_manager::ConnectionManager::handle_connect_request",)
+ALWAYS_INLINE = ("anemo::network::connection_manager::ConnectionManager::handle_connect_request",
+                 "anemo::network::connection_manager::ActivePeersInner::contains",      # = self.connections.contains_key(id)
+                 "anemo::network::connection_manager::ActivePeersInner::len")           # = self.connections.len()
 WORKSPACE = ("anemo", "anemo_tower", "anemo_build", "anemo_cli", "examples")
 
 
@@ -422,12 +424,89 @@ def _inline_async(B, prog, poll_bb, F, G):
 # ---------------------------------------------------------------------------------------------------------------
 
 
+def _pinned_sigs():
+    try:
+        with open(os.path.join(os.path.dirname(os.path.abspath(__file__)), "pinned_names.json")) as fh:
+            return json.load(fh).get("sigs") or {}
+    except OSError:
+        return {}
+
+
+def _nt(t_):
+    return re.sub(r"@[^}>]*?:\d+:\d+: \d+:\d+", "@", t_)
+
+
+def _rename_fn(prog, old, new):
+    """present function `old` (and its closures) under the pinned name `new` everywhere"""
+    def fix(n_):
+        if n_ is None:
+            return n_
+        sg = strip_generics(n_)
+        if sg == old:
+            return new
+        if sg.startswith(old + "::{"):
+            return new + sg[len(old):]
+        return n_
+    for key in [k for k in list(prog.bodies) if k == old or k.startswith(old + "::{")]:
+        b = prog.bodies.pop(key)
+        b.path = fix(b.path)
+        b.raw_path = fix(b.raw_path)
+        b.j["path"] = b.path
+        prog.bodies[b.path] = b
+    for b in prog.bodies.values():
+        b.parent = fix(b.parent)
+        for bl in b.blocks:
+            t = bl["t"]
+            if t["k"] in ("call", "tailcall"):
+                f = t.get("func") or {}
+                for k in ("fn", "res", "inst"):
+                    if f.get(k):
+                        f[k] = fix(f[k])
+                if t.get("closure_body"):
+                    t["closure_body"] = fix(t["closure_body"])
+                for a in t.get("args", []):
+                    if isinstance(a, dict) and a.get("k") == "const" and a.get("fn"):
+                        a["fn"] = fix(a["fn"])
+            for s_ in bl["s"]:
+                if s_["k"] == "assign":
+                    rv = s_["rv"]
+                    if rv["k"] == "agg" and rv.get("body"):
+                        rv["body"] = fix(rv["body"])
+                    for op in _rv_ops(rv):
+                        if isinstance(op, dict) and op.get("k") == "const" and op.get("fn"):
+                            op["fn"] = fix(op["fn"])
+        _reset(b)
+    prog._callers = None
+
+
+def _undo_renames(prog, pinned, report):
+    """A pinned function that is gone while exactly one new function with the same signature appeared next to it (same
+    module / impl) was renamed: keep calling it by its pinned name."""
+    sigs = _pinned_sigs()
+    missing = [p for p in sigs if p not in prog.bodies and p not in ALWAYS_INLINE]
+    if not missing:
+        return
+    new = [q for q, b in prog.bodies.items() if b.crate in WORKSPACE and q not in pinned and b.kind in ("Fn", "AssocFn")]
+    claimed = set()
+    for p in missing:
+        pre = p.rsplit("::", 1)[0]
+        want = [_nt(x) for x in sigs[p]["tys"]]
+        c = [q for q in new if q.rsplit("::", 1)[0] == pre and q not in claimed
+             and [_nt(l["ty"]) for l in prog.bodies[q].locals[:prog.bodies[q].argc + 1]] == want]
+        others = [m for m in missing if m != p and m.rsplit("::", 1)[0] == pre and [_nt(x) for x in sigs[m]["tys"]] == want]
+        if len(c) == 1 and not others:
+            claimed.add(c[0])
+            _rename_fn(prog, c[0], p)
+            report.setdefault("renamed", []).append([c[0], p])
+
+
 def normalize(prog, pinned=None):
     """Inline every function that does not exist on the pinned tree into its callers. Returns a report dict."""
     pinned = pinned_bodies() if pinned is None else pinned
     report = {"new_functions": [], "inlined_sites": 0, "not_inlined": []}
     if not pinned:
         return report
+    _undo_renames(prog, pinned, report)
     new_sync, new_async = {}, {}
     for p, b in prog.bodies.items():
         if b.crate not in WORKSPACE or (p in pinned and p not in ALWAYS_INLINE) or "#" in p.split("::")[-1]:
